@@ -30,6 +30,8 @@ CHECKS = {
          'runtime monitor: relational cell-by-cell oracle over theme pairs and rename pairs', '5/C15'),
  'C19': ('exploration', 'pairs of runs with hyperlinks off/on: OSC-8-stripped bytes identical; every link closed on its line; file and commit link targets recomputed independently from the input model and the displayed numbers',
          'runtime monitor: relational (hyperlinks on vs off) oracle + link-target reference model', '5/C19'),
+ 'C20': ('exploration', 'every feasible order of the critical sections of the calling-process cell (background store vs known store vs each query, incl. "query already waiting") forced through cfg-guarded gates for 10 scenarios, plus jitter/unforced runs (and a ThreadSanitizer build in the thorough tier); recorded traces replayed offline against a sequential register model, stdout compared across schedules, deadlock decided from thread states',
+         'runtime monitor: forced-schedule enumeration at hook gates + offline trace checker + TSan', '5/C20'),
 }
 NOT_APPLICABLE = {}
 
